@@ -85,30 +85,38 @@ CLAIMS = [
     },
     {
         "id": "C06",
-        "technique": "static analysis: symbolic evaluation of the five role tables for all 126 roles and cross-table agreement; continuation-application arity analysis; callee/panic/handle-table inventories from MIR and HIR",
+        "technique": "static analysis: symbolic evaluation of the five role tables for all 126 roles and cross-table agreement; continuation-application arity analysis; callee/panic/handle-table and numeric-cast inventories from MIR and HIR",
         "level_text": "Statically evaluates arity(), for_role(), host_name(), stack-IR for_known_role() and the invoke dispatch for every "
                       "role and checks they agree with the slice pattern and the continuation applications of the dispatched interpreter "
                       "function (arity, per-position atom kinds, declared result atom, every continuation applied to exactly as many "
                       "arguments as its classifier has arrows, Branch::select order). Also decided: Utf8String indexes by scalars only, the "
                       "role functions' panic inventory is exactly {shape default, wrapping_div/rem, six legacy expects}, handle ids are "
                       "never reissued and the handle tables are touched only by open/close/lookup with closed() on a miss, every "
-                      "io::Result reaches the error continuation, the classifier matcher compares every decisive case and rejects by default.",
+                      "io::Result reaches the error continuation, the classifier matcher compares every decisive case and rejects by default, "
+                      "and no `as` cast in the host operations or Utf8String can wrap or truncate (arguments are validated at full width; "
+                      "the one lossy cast, process/exit's i64 -> i32, is inventoried).",
         "level_note": "NOT decided: behaviour of std on concrete strings and files, the .zy declarations in lib/std/builtin (validated at "
                       "link time by the matcher checked here), runtime/stub.rs (outside the workspace).",
     },
     {
         "id": "C01",
-        "technique": "static analysis: MIR dominance / who-may-construct gates, whole-crate error-discipline rule on typed HIR, audited arm tables for definitional equality and the Builtin classifier matcher, constructor inventory for hole nodes",
+        "technique": "static analysis: MIR dominance / who-may-construct gates, whole-crate error-discipline rule on typed HIR, audited arm tables for definitional equality and the Builtin classifier matcher, constructor inventory for hole nodes, traversal completeness and use-or-error rules on the judgments, symbolic value flow over MIR for the binder correspondence, branch-join and declaration-lookup dataflow rules, binder-coverage over the typed ADTs",
         "level_text": "Decides structural necessary conditions of soundness (not the soundness theorem): the accepted outcome, the executable "
                       "program and the package plan are constructed only in the listed functions and only on the success edges of their "
                       "validators (infeasible `Err(..)?` edges pruned); the error list is append-only and tested before accepting; none of "
                       "the ~780 call sites returning the not-yet-recorded error type drops its result; Lub still performs each of the "
                       "audited field comparisons of all 24 type and 4 kind formers, rejects every off-diagonal pair and keeps its leaf "
                       "guards; the classifier matcher compares every decisive case; Link has an explicit arm per variant; Value::Hole / "
-                      "Computation::Hole are built only where listed.",
-        "level_note": "NOT decided: progress/preservation of the typing rules, the coverage algorithm, termination of normalisation. The lub "
-                      "table (rules/lub_table.json) is the audited reference of today's comparisons; it encodes my reading of lub.rs. "
-                      "Known finding F7 (typed holes get stuck) is listed; F11 (found by the seeding agents) was repaired.",
+                      "Computation::Hole are built only where listed; every sub-term of every former reaches a judgment and every analysis "
+                      "arm uses its expected type or reports; the per-arm types of a match are all joined by lub_k; Debruijn::insert "
+                      "advances the level on every path and the lookups read their own side; constructor / destructor names are looked up "
+                      "only through Data::get / CoData::get; the coverage validator visits both arenas and every variant that carries a "
+                      "value pattern (match, comatch, let / do / fn / fix binders), so `no matching arm` and `pattern match failed` are "
+                      "unreachable if the matrix algorithm is right.",
+        "level_note": "NOT decided: progress/preservation of the typing rules, the matrix algorithm's theorem (C04), termination of "
+                      "normalisation. The lub table (rules/lub_table.json) is the audited reference of today's comparisons; it encodes my "
+                      "reading of lub.rs. Known finding F7 (typed holes get stuck) is listed; F11, F27 (refutable binders accepted) and F28 "
+                      "(repeated constructor name) were found by seeding agents on the unchanged tree and repaired.",
     },
     {
         "id": "C02",
@@ -127,27 +135,36 @@ CLAIMS = [
     },
     {
         "id": "C03",
-        "technique": "static analysis: audited Lub arm table, whole-crate error-discipline rule, sort-helper arm tables, unroll-to-equality value flow on typed HIR",
+        "technique": "static analysis: audited Lub arm table, whole-crate error-discipline rule, sort-helper arm tables, unroll-to-equality value flow on typed HIR, audited traces of beta-normalisation, binder-scope table over the substitution arms, shape-assumption provenance rule, symbolic value flow over MIR (binder levels)",
         "level_text": "Soundness side only: (1) Lub performs every audited field comparison, rejects every off-diagonal pair, keeps the guards "
                       "and the closed accepting cases of the identity formers, the existential mode table and the AnnId sort table; (2) no "
                       "unrecorded checker error is dropped anywhere in zydeco-statics; (3) try_as_<sort> helpers accept exactly their sort, "
                       "every let-else on a sort enum ends in an error, no match on a sort enum continues through `_` outside two audited "
                       "cases; (4) no unrolled type (unroll_k, or a deferred telescope materialised with an unrolling environment) flows into "
-                      "Lub, so a sealed definition is never compared by representation.",
-        "level_note": "NOT decided: completeness (well-typed programs are accepted), the exact diagnostic, inference, expected-type "
-                      "preparation. The rules are necessary conditions; they do not prove the typing rules.",
+                      "Lub, so a sealed definition is never compared by representation; (5) the binder correspondence of alpha-equivalence "
+                      "advances one level per binder pair; (6) substitution of abstract witnesses filters the assignments under every "
+                      "former that rebinds a witness (computed from the payload types); (7) the judgments take a type apart without a "
+                      "diagnostic only where the same arm has just forced that shape by lub / analysis; (8) the match judgment joins all "
+                      "arm types; names are looked up in declarations one way; (9) completeness side, partially: beta-normalisation "
+                      "performs its audited steps (whole spine, head and every argument normalised, substitution / fusion, projections).",
+        "level_note": "NOT decided: completeness in general (only the normalisation steps are pinned), the exact diagnostic, inference. The "
+                      "rules are necessary conditions; they do not prove the typing rules. F29 (fix binder never compared with Thk: crash / "
+                      "acceptance) and F30 (substitution rewrote a shadowed witness) were found by a seeding agent on the unchanged tree and "
+                      "repaired; the normalisation traces alarm on any semantic edit of normalize.rs's spine code.",
     },
     {
         "id": "C07",
-        "technique": "static analysis: flow-sensitive symbolic scope traces of every resolver arm against an audited table; generic traversal-completeness rule (typed HIR); type facts of the program builder",
+        "technique": "static analysis: flow-sensitive symbolic scope traces of every resolver arm against an audited table; generic traversal-completeness rule (typed HIR); merge-bias rule on the pattern-binder map; type facts of the program builder",
         "level_text": "Decides the per-former scoping rules that make renaming invariance hold: for all 38 term and 9 pattern formers, each child "
                       "is resolved in the audited scope (inherited / after its binder / threaded / empty at source and signature boundaries), "
                       "`that` forms need an enclosing block, block names are installed by explicit updates over the inherited map; the "
                       "candidate collector, resolver, DeepClone and program builder visit every TermId/PatId child they bind (299 "
                       "obligations), the collector stops exactly at Block/SourceBoundary/SignatureBoundary, and the program builder "
-                      "allocates a fresh copy per import occurrence and has no cache.",
+                      "allocates a fresh copy per import occurrence and has no cache; the names a `that` pattern contributes are merged so that "
+                      "a repeated name denotes the later component, as in the lexical resolution of the same pattern.",
         "level_note": "NOT decided: the theorem that these rules imply alpha-invariance of behaviour. The scope table encodes my reading of the "
-                      "language's scoping rules and alarms on any semantic edit of a resolver arm.",
+                      "language's scoping rules and alarms on any semantic edit of a resolver arm. F26 (a name repeated inside one `that` pattern "
+                      "bound its first occurrence) was found by a seeding agent on the unchanged tree and repaired.",
     },
     {
         "id": "C09",
@@ -180,7 +197,7 @@ CLAIMS = [
     },
     {
         "id": "C04",
-        "technique": "static analysis: sibling-table agreement of the five constructor tables (typed HIR arm evaluation), explicit-arm pattern translation table, producer/hint pairing over who-constructs facts and query-judgment callers, gate/truncation rules, audited flow-sensitive traces of the matrix recursion and of run-time pattern assignment",
+        "technique": "static analysis: sibling-table agreement of the five constructor tables (typed HIR arm evaluation), explicit-arm pattern translation table, producer/hint pairing over who-constructs facts and query-judgment callers, gate/truncation rules, binder-coverage over the typed ADTs, audited flow-sensitive traces of the matrix recursion and of run-time pattern assignment",
         "level_text": "Decides necessary structural conditions, not the algorithm's theorem: per constructor kind head_space -> constructors -> "
                       "specialize is the diagonal with None elsewhere, specialize yields exactly arity() sub-patterns (same name / same "
                       "product arity), wildcards specialise to arity() wildcards, rebuild consumes arity() witnesses and keeps the rest; "
@@ -188,7 +205,9 @@ CLAIMS = [
                       "static package fields erased); every producer of a CoMatch node or constructor pattern records its hint for the id "
                       "it produced and the scrutinee hint comes from the Data arm of the unrolled type; every coverage error reaches the "
                       "checker's error list; truncation bounds agree; audited traces of U(P,n,E) (columns-1+arity, head space over all rows, "
-                      "expected space on empty matrices), comatch missing/duplicate sets and the interpreter's pattern assignment.",
+                      "expected space on empty matrices), comatch missing/duplicate sets and the interpreter's pattern assignment; every "
+                      "Computation / Value variant that carries a value pattern is validated (binders outside match are one-clause matches) "
+                      "and both arenas are visited.",
         "level_note": "NOT decided: soundness/completeness of the pattern-matrix algorithm against enumeration of values (a different "
                       "technique); the traces encode my reading of Maranget's algorithm as implemented and alarm on any semantic edit.",
     },
